@@ -305,13 +305,15 @@ def main():
     try:
         text = generate()
     except TranslatorError as e:
-        print("gen_unicode: %s" % e)
+        print("translator: ERROR (gen_unicode) %s" % e)
         sys.exit(2)
     old = open(OUT, encoding="utf-8").read() if os.path.exists(OUT) else None
     if old != text:
         with open(OUT, "w", encoding="utf-8") as f:
             f.write(text)
-        print("gen_unicode: GenUnicode.v rewritten")
+        print("translator: GenUnicode.v rewritten")
+    else:
+        print("translator: GenUnicode.v unchanged")
 
 
 if __name__ == "__main__":
